@@ -549,6 +549,20 @@ class Natives(object):
             if not isinstance(v, En): return POISON
             return En(OPT, v.disc, {1: St(None, {0: a[0].proj(('v', 1)).proj(('f', 0))})})
         R('Option::as_mut Option::as_ref', as_mut)
+        # ---- the `?` operator on Option / Result  (ControlFlow: Continue = 0, Break = 1)
+        CF = ('ControlFlow', None)
+        def try_branch_opt(m, th, a, g):
+            v = a[0]
+            if not isinstance(v, En): return POISON
+            return En(CF, Ite(Eq(v.disc, ONE), ZERO, ONE), {0: St(None, {0: payload(v, 1)}), 1: St(None, {0: NoneV()})})
+        T('Try', 'branch', 'Option', try_branch_opt)
+        def try_branch_res(m, th, a, g):
+            v = a[0]
+            if not isinstance(v, En): return POISON
+            return En(CF, Ite(Eq(v.disc, ZERO), ZERO, ONE), {0: St(None, {0: payload(v, 0)}), 1: St(None, {0: Err(payload(v, 1))})})
+        T('Try', 'branch', 'Result', try_branch_res)
+        T('FromResidual', 'from_residual', 'Option', lambda m, th, a, g: NoneV())
+        T('FromResidual', 'from_residual', 'Result', lambda m, th, a, g: a[0])
         # ---- mem
         def swap(m, th, a, g):
             x = m.load(a[0], g); y = m.load(a[1], g)
